@@ -3,7 +3,7 @@ import json
 import re
 
 import vlib
-from checks import translate_tie
+from checks import lint_tie, translate_tie
 
 PROPERTIES = {
     "C18": {
@@ -47,6 +47,8 @@ PROPERTIES = {
     },
 }
 
+PROPERTIES["C18"]["text"] += lint_tie.TIE_TEXT
+PROPERTIES["C18"]["note"] += " Added trusted base: " + lint_tie.TRUSTED + "."
 translate_tie.describe(PROPERTIES, "C18", "(here: identifiers.IsCamelCase = the model's is_camel_case, for every interpretation of "
                        "unicode.IsDigit/IsUpper; identifiers.IsAlphaChar/IsNumChar; Identifier.Validate and the Validate methods of "
                        "pkg/dbc's enumeration types)", translate_tie.TIE_NOTE_INT, translate_tie.TIE_NOTE_LOOP)
@@ -95,6 +97,7 @@ def harness_args(tier, seed):
 def run(res, replay=None):
     vlib.proof_stage(res)
     translate_tie.run_tie(res, ["lintnames"])
+    lint_tie.run_lint_tie(res)   # stage lint_tie: analyzers regenerated from the source = Dbc/Lint.v
     args = harness_args(res.tier, res.seed)
     tmp = None
     if replay:
